@@ -1,0 +1,509 @@
+//go:build verif
+
+package asp
+
+// Verification hook for properties C16, C17 and C18 (the BUILD language). Add-only; compiled only
+// with -tags verif. Nothing here changes behaviour: it only calls the unexported parser and
+// interpreter entry points and serialises what they produce.
+
+import (
+	"encoding/json"
+	"fmt"
+	"os"
+	"path/filepath"
+	"sort"
+	"strings"
+	"sync"
+
+	"github.com/thought-machine/please/rules"
+	"github.com/thought-machine/please/src/core"
+)
+
+// VerifC16File is one in-memory BUILD or build_defs file.
+type VerifC16File struct {
+	// Name is the package name for a BUILD file, or the label used in subinclude("...") for a defs file.
+	Name string
+	Src  string
+	// Defs files are only evaluated through interpreter.Subinclude (parse + optimise + optimiseExpressions,
+	// frozen globals cached per interpreter), when a BUILD file calls subinclude(Name).
+	Defs bool
+}
+
+// VerifC16Result is what one BUILD file produced.
+type VerifC16Result struct {
+	Name string `json:"name"`
+	// Err is the innermost error message ("" when the file was interpreted without error).
+	Err string `json:"err,omitempty"`
+	// After is the typed rendering of the file's globals immediately after it was interpreted,
+	// Final the rendering of the same scope after every file of the run has finished.
+	After json.RawMessage `json:"after,omitempty"`
+	Final json.RawMessage `json:"final,omitempty"`
+}
+
+// VerifC16Eval interprets the BUILD files (Defs == false) in the given order on ONE fresh parser, so that
+// they share the interpreter's subinclude cache exactly as packages of one plz invocation do.
+// subinclude("name") resolves to the Defs file of that name (written to a temporary directory and read
+// back by the real parseSubinclude / Subinclude code); target resolution is the only part replaced.
+// With concurrent == true the BUILD files are interpreted by one goroutine each.
+func VerifC16Eval(files []VerifC16File, concurrent bool) (out []VerifC16Result, err error) {
+	state := core.NewDefaultBuildState()
+	if state.Config.Parse.NumThreads < 4 {
+		state.Config.Parse.NumThreads = 4
+	}
+	p := NewParser(state)
+	src, err := rules.ReadAsset("builtins.build_defs")
+	if err != nil {
+		return nil, err
+	}
+	if err := p.LoadBuiltins("builtins.build_defs", src); err != nil {
+		return nil, err
+	}
+	dir := ""
+	paths := map[string]string{}
+	for _, f := range files {
+		if !f.Defs {
+			continue
+		}
+		if dir == "" {
+			if dir, err = os.MkdirTemp("", "c16-hook-"); err != nil {
+				return nil, err
+			}
+			defer os.RemoveAll(dir)
+		}
+		path := filepath.Join(dir, fmt.Sprintf("d%d.build_defs", len(paths)))
+		if err := os.WriteFile(path, []byte(f.Src), 0o644); err != nil {
+			return nil, err
+		}
+		paths[f.Name] = path
+	}
+	sub := p.interpreter.scope.Lookup("subinclude").(*pyFunc)
+	sub.nativeCode = func(s *scope, args []pyObject) pyObject {
+		for _, arg := range args {
+			name, ok := arg.(pyString)
+			s.Assert(ok, "cannot subinclude type %s", arg.Type())
+			path, present := paths[string(name)]
+			s.Assert(present, "verif: no such defs file %s", name)
+			// the same two calls as the real subinclude() builtin makes per output file
+			s.SetAll(s.interpreter.Subinclude(s, path, core.BuildLabel{PackageName: "defs", Name: strings.Trim(string(name), "/:")}, false), false)
+		}
+		return None
+	}
+
+	var builds []VerifC16File
+	for _, f := range files {
+		if !f.Defs {
+			builds = append(builds, f)
+		}
+	}
+	out = make([]VerifC16Result, len(builds))
+	scopes := make([]*scope, len(builds))
+	run := func(i int) {
+		f := builds[i]
+		out[i].Name = f.Name
+		p.limiter.Acquire()
+		defer p.limiter.Release()
+		stmts, err := p.ParseData([]byte(f.Src), f.Name+"/BUILD")
+		if err != nil {
+			out[i].Err = "parse: " + verifShort(err)
+			return
+		}
+		s, err := p.interpreter.interpretAll(core.NewPackage(f.Name), nil, nil, 0, stmts)
+		if err != nil {
+			out[i].Err = verifShort(err)
+			return
+		}
+		scopes[i] = s
+		out[i].After = verifGlobals(s)
+	}
+	if concurrent {
+		var wg sync.WaitGroup
+		for i := range builds {
+			wg.Add(1)
+			go func() { defer wg.Done(); run(i) }()
+		}
+		wg.Wait()
+	} else {
+		for i := range builds {
+			run(i)
+		}
+	}
+	for i, s := range scopes {
+		if s != nil {
+			out[i].Final = verifGlobals(s)
+		}
+	}
+	return out, nil
+}
+
+func verifShort(err error) string {
+	if st, ok := err.(*errorStack); ok {
+		return st.err.Error()
+	}
+	return err.Error()
+}
+
+func verifGlobals(s *scope) json.RawMessage {
+	keys := make([]string, 0, len(s.locals))
+	for k := range s.locals {
+		if k != "CONFIG" {
+			keys = append(keys, k)
+		}
+	}
+	sort.Strings(keys)
+	var b strings.Builder
+	b.WriteByte('{')
+	for i, k := range keys {
+		if i > 0 {
+			b.WriteByte(',')
+		}
+		kb, _ := json.Marshal(k)
+		b.Write(kb)
+		b.WriteByte(':')
+		verifValue(&b, s.locals[k], 0)
+	}
+	b.WriteByte('}')
+	return json.RawMessage(b.String())
+}
+
+// Typed rendering: int -> number; str -> string; bool; None -> null; list -> ["L", cap-len, items...];
+// frozen list -> ["FL", cap-len, items...]; nil list -> ["NIL"]; dict -> {"D": {...}}; frozen dict -> {"FD": {...}};
+// range -> ["R", start, stop, step]; function -> {"F": name}; anything else -> {"T": type name}.
+func verifValue(b *strings.Builder, v pyObject, depth int) {
+	if depth > 50 {
+		b.WriteString(`{"T":"too-deep"}`)
+		return
+	}
+	list := func(tag string, l pyList) {
+		if l == nil {
+			b.WriteString(`["NIL"]`)
+			return
+		}
+		fmt.Fprintf(b, `["%s",%d`, tag, cap(l)-len(l))
+		for _, x := range l {
+			b.WriteByte(',')
+			verifValue(b, x, depth+1)
+		}
+		b.WriteByte(']')
+	}
+	dict := func(tag string, d pyDict) {
+		fmt.Fprintf(b, `{"%s":{`, tag)
+		for i, k := range d.Keys() {
+			if i > 0 {
+				b.WriteByte(',')
+			}
+			kb, _ := json.Marshal(k)
+			b.Write(kb)
+			b.WriteByte(':')
+			verifValue(b, d[k], depth+1)
+		}
+		b.WriteString("}}")
+	}
+	switch t := v.(type) {
+	case nil:
+		b.WriteString(`{"T":"go-nil"}`)
+	case pyInt:
+		fmt.Fprintf(b, "%d", int(t))
+	case pyString:
+		sb, _ := json.Marshal(string(t))
+		b.Write(sb)
+	case pyBool:
+		if t {
+			b.WriteString("true")
+		} else {
+			b.WriteString("false")
+		}
+	case pyNone:
+		b.WriteString("null")
+	case pyList:
+		list("L", t)
+	case pyFrozenList:
+		list("FL", t.pyList)
+	case pyDict:
+		dict("D", t)
+	case pyFrozenDict:
+		dict("FD", t.pyDict)
+	case *pyRange:
+		fmt.Fprintf(b, `["R",%d,%d,%d]`, int(t.Start), int(t.Stop), int(t.Step))
+	case *pyFunc:
+		nb, _ := json.Marshal(t.name)
+		fmt.Fprintf(b, `{"F":%s}`, nb)
+	default:
+		nb, _ := json.Marshal(v.Type())
+		fmt.Fprintf(b, `{"T":%s}`, nb)
+	}
+}
+
+// ---------------------------------------------------------------------------------------------
+// AST dump, used by the harness to validate its source printer: the AST the real parser builds from
+// the printed text must equal the generated AST. Shapes outside the dumped fragment become {"k":"?"}.
+
+type verifExpr struct {
+	Val *verifVal  `json:"v"`
+	Ops []verifOp  `json:"ops,omitempty"`
+	If  *verifExpr `json:"if,omitempty"`
+	Els *verifExpr `json:"else,omitempty"`
+}
+
+type verifOp struct {
+	Op  string    `json:"op"`
+	Val *verifVal `json:"v,omitempty"`
+}
+
+type verifArg struct {
+	Name string     `json:"n,omitempty"`
+	E    *verifExpr `json:"e,omitempty"`
+}
+
+type verifSlice struct {
+	Colon bool       `json:"colon,omitempty"`
+	Lo    *verifExpr `json:"lo,omitempty"`
+	Hi    *verifExpr `json:"hi,omitempty"`
+}
+
+type verifVal struct {
+	K      string       `json:"k"`
+	Int    int          `json:"int,omitempty"`
+	Str    string       `json:"str,omitempty"`
+	Items  []*verifExpr `json:"items,omitempty"`
+	Keys   []*verifExpr `json:"keys,omitempty"`
+	Names  []string     `json:"names,omitempty"`
+	Iter   *verifExpr   `json:"iter,omitempty"`
+	Cond   *verifExpr   `json:"cond,omitempty"`
+	Name   string       `json:"name,omitempty"`
+	Call   bool         `json:"call,omitempty"`
+	Args   []verifArg   `json:"args,omitempty"`
+	Slices []verifSlice `json:"slices,omitempty"`
+	Meth   string       `json:"meth,omitempty"`
+	MArgs  []verifArg   `json:"margs,omitempty"`
+	PMeth  string       `json:"pmeth,omitempty"`
+	PMArgs []verifArg   `json:"pmargs,omitempty"`
+}
+
+type verifStmt struct {
+	K     string       `json:"k"`
+	Name  string       `json:"name,omitempty"`
+	Names []string     `json:"names,omitempty"`
+	Idx   *verifExpr   `json:"idx,omitempty"`
+	E     *verifExpr   `json:"e,omitempty"`
+	Args  []verifArg   `json:"args,omitempty"`
+	Body  []*verifStmt `json:"body,omitempty"`
+	Elif  []*verifStmt `json:"elif,omitempty"`
+	Else  []*verifStmt `json:"els,omitempty"`
+}
+
+var verifOpNames = map[Operator]string{Add: "+", Subtract: "-", Multiply: "*", Divide: "/", FloorDivide: "//", Modulo: "%",
+	Negate: "neg", LessThan: "<", GreaterThan: ">", LessThanOrEqual: "<=", GreaterThanOrEqual: ">=", Equal: "==", NotEqual: "!=",
+	In: "in", NotIn: "not in", And: "and", Or: "or", Not: "not", Union: "|", Is: "is", IsNot: "is not"}
+
+// VerifC16Parse parses src with the real lexer and parser and returns the AST as JSON (or the error).
+func VerifC16Parse(src string) (string, error) {
+	stmts, err := newParser().ParseData([]byte(src), "verif")
+	if err != nil {
+		return "", fmt.Errorf("%s", verifShort(err))
+	}
+	b, err := json.Marshal(verifStmts(stmts))
+	return string(b), err
+}
+
+func verifStmts(stmts []*Statement) []*verifStmt {
+	out := []*verifStmt{}
+	for _, st := range stmts {
+		out = append(out, verifStmtOf(st))
+	}
+	return out
+}
+
+func verifStmtOf(st *Statement) *verifStmt {
+	switch {
+	case st.Pass:
+		return &verifStmt{K: "pass"}
+	case st.Continue:
+		return &verifStmt{K: "continue"}
+	case st.Break:
+		return &verifStmt{K: "break"}
+	case st.FuncDef != nil:
+		fd := st.FuncDef
+		if fd.Docstring != "" || fd.Return != "" {
+			return &verifStmt{K: "?"}
+		}
+		v := &verifStmt{K: "def", Name: fd.Name, Body: verifStmts(fd.Statements)}
+		for _, a := range fd.Arguments {
+			if len(a.Type) != 0 || len(a.Aliases) != 0 {
+				return &verifStmt{K: "?"}
+			}
+			va := verifArg{Name: a.Name}
+			if a.Value != nil {
+				va.E = verifExprOf(a.Value)
+			}
+			v.Args = append(v.Args, va)
+		}
+		return v
+	case st.For != nil:
+		return &verifStmt{K: "for", Names: st.For.Names, E: verifExprOf(&st.For.Expr), Body: verifStmts(st.For.Statements)}
+	case st.If != nil:
+		v := &verifStmt{K: "if", E: verifExprOf(&st.If.Condition), Body: verifStmts(st.If.Statements)}
+		for _, el := range st.If.Elif {
+			v.Elif = append(v.Elif, &verifStmt{K: "elif", E: verifExprOf(&el.Condition), Body: verifStmts(el.Statements)})
+		}
+		if st.If.ElseStatements != nil {
+			v.Else = verifStmts(st.If.ElseStatements)
+		}
+		return v
+	case st.Return != nil:
+		if len(st.Return.Values) != 1 {
+			return &verifStmt{K: "return"}
+		}
+		return &verifStmt{K: "return", E: verifExprOf(st.Return.Values[0])}
+	case st.Assert != nil:
+		if st.Assert.Message != nil {
+			return &verifStmt{K: "?"}
+		}
+		return &verifStmt{K: "assert", E: verifExprOf(st.Assert.Expr)}
+	case st.Ident != nil:
+		id := st.Ident
+		switch {
+		case id.Index != nil && id.Index.Assign != nil:
+			return &verifStmt{K: "idxassign", Name: id.Name, Idx: verifExprOf(id.Index.Expr), E: verifExprOf(id.Index.Assign)}
+		case id.Index != nil:
+			return &verifStmt{K: "idxaug", Name: id.Name, Idx: verifExprOf(id.Index.Expr), E: verifExprOf(id.Index.AugAssign)}
+		case id.Unpack != nil:
+			return &verifStmt{K: "unpack", Names: append([]string{id.Name}, id.Unpack.Names...), E: verifExprOf(id.Unpack.Expr)}
+		case id.Action != nil && id.Action.Assign != nil:
+			return &verifStmt{K: "assign", Name: id.Name, E: verifExprOf(id.Action.Assign)}
+		case id.Action != nil && id.Action.AugAssign != nil:
+			return &verifStmt{K: "aug", Name: id.Name, E: verifExprOf(id.Action.AugAssign)}
+		case id.Action != nil && id.Action.Call != nil:
+			return &verifStmt{K: "call", Name: id.Name, Args: verifArgs(id.Action.Call)}
+		}
+	}
+	return &verifStmt{K: "?"}
+}
+
+func verifArgs(c *Call) []verifArg {
+	out := []verifArg{}
+	for i := range c.Arguments {
+		out = append(out, verifArg{Name: c.Arguments[i].Name, E: verifExprOf(&c.Arguments[i].Value)})
+	}
+	return out
+}
+
+func verifExprOf(e *Expression) *verifExpr {
+	if e == nil {
+		return nil
+	}
+	v := &verifExpr{}
+	if e.Val != nil {
+		v.Val = verifValOf(e.Val)
+	}
+	for _, o := range e.Op {
+		vo := verifOp{Op: verifOpNames[o.Op]}
+		if o.Expr != nil {
+			if len(o.Expr.Op) != 0 || o.Expr.If != nil || o.Expr.Val == nil {
+				vo.Op = "?"
+			} else {
+				vo.Val = verifValOf(o.Expr.Val)
+			}
+		}
+		v.Ops = append(v.Ops, vo)
+	}
+	if e.If != nil {
+		v.If = verifExprOf(e.If.Condition)
+		v.Els = verifExprOf(e.If.Else)
+	}
+	return v
+}
+
+func verifExprs(es []*Expression) []*verifExpr {
+	out := []*verifExpr{}
+	for _, e := range es {
+		out = append(out, verifExprOf(e))
+	}
+	return out
+}
+
+func verifValOf(ve *ValueExpression) *verifVal {
+	v := &verifVal{}
+	comp := func(c *Comprehension) bool {
+		if c.Second != nil {
+			return false
+		}
+		v.Names = c.Names
+		v.Iter = verifExprOf(c.Expr)
+		v.Cond = verifExprOf(c.If)
+		return true
+	}
+	switch {
+	case ve.String != "":
+		v.K, v.Str = "str", stringLiteral(ve.String)
+	case ve.FString != nil:
+		v.K = "?"
+	case ve.IsInt:
+		v.K, v.Int = "int", ve.Int
+	case ve.True:
+		v.K = "true"
+	case ve.False:
+		v.K = "false"
+	case ve.None:
+		v.K = "none"
+	case ve.List != nil:
+		v.K, v.Items = "list", verifExprs(ve.List.Values)
+		if ve.List.Comprehension != nil {
+			v.K = "comp"
+			if !comp(ve.List.Comprehension) {
+				v.K = "?"
+			}
+		}
+	case ve.Tuple != nil:
+		v.K, v.Items = "paren", verifExprs(ve.Tuple.Values)
+		if ve.Tuple.Comprehension != nil {
+			v.K = "?"
+		}
+	case ve.Dict != nil:
+		v.K = "dict"
+		for _, it := range ve.Dict.Items {
+			v.Keys = append(v.Keys, verifExprOf(&it.Key))
+			v.Items = append(v.Items, verifExprOf(&it.Value))
+		}
+		if ve.Dict.Comprehension != nil {
+			v.K = "dictcomp"
+			if !comp(ve.Dict.Comprehension) {
+				v.K = "?"
+			}
+		}
+	case ve.Lambda != nil:
+		v.K = "lambda"
+		for _, a := range ve.Lambda.Arguments {
+			v.Names = append(v.Names, a.Name)
+			if a.Value != nil {
+				v.K = "?"
+			}
+		}
+		v.Iter = verifExprOf(&ve.Lambda.Expr)
+	case ve.Ident != nil:
+		v.K, v.Name = "ident", ve.Ident.Name
+		acts := ve.Ident.Action
+		if len(acts) == 1 && acts[0].Call != nil {
+			v.Call, v.Args = true, verifArgs(acts[0].Call)
+		} else if len(acts) == 1 && acts[0].Property != nil && len(acts[0].Property.Action) == 1 && acts[0].Property.Action[0].Call != nil {
+			v.Meth, v.MArgs = acts[0].Property.Name, verifArgs(acts[0].Property.Action[0].Call)
+		} else if len(acts) != 0 {
+			v.K = "?"
+		}
+	default:
+		v.K = "?"
+	}
+	for _, sl := range ve.Slices {
+		v.Slices = append(v.Slices, verifSlice{Colon: sl.Colon != "", Lo: verifExprOf(sl.Start), Hi: verifExprOf(sl.End)})
+	}
+	if ve.Property != nil {
+		if len(ve.Property.Action) != 1 || ve.Property.Action[0].Call == nil {
+			v.K = "?"
+		} else {
+			v.PMeth, v.PMArgs = ve.Property.Name, verifArgs(ve.Property.Action[0].Call)
+		}
+	}
+	if ve.Call != nil {
+		v.K = "?"
+	}
+	return v
+}
